@@ -113,7 +113,7 @@ def run(chk):
         if gn[1] or go[1]:
             chk.failures.append(core.Failure("validation modifies the flash: %s" % (gn[1] or go[1])[:2], "session", "matrix", l, raw[:500], key="c14"))
         nt.append(l)
-        if len(chk.failures) > 10: break
+        if chk.too_many(): break
     chk.note_cases("session-crc", lines, nt, sample_n=2, dist=dist)
     # the final check-and-mark applies the same test before marking anything: sessions whose image carries a wrong CRC
     bad = []
